@@ -182,13 +182,22 @@ def run(rep: Report, tier: str) -> None:
 	members = helper_closure(ob, 2)
 	members = [g for g in members if g.name not in ('_calc', '_bitwise', '_cat', '_allow_string')]
 	arms: dict[str, list] = {'float': [], 'int': [], 'bitwise': [], 'cat': []}
+	exact_arms: list = []  # int / int by Python's own true division (correctly rounded): operands handed over unconverted, result not re-wrapped
 	for g in members:
 		gx = X(g)
 		for cl in nodes(gx, ast.Call):
 			fnm = unparse(cl.func)
 			if fnm == 'self._calc' and len(cl.args) == 3:
 				floats = [isinstance(a, ast.Call) and unparse(a.func) == 'float' for a in (cl.args[0], cl.args[2])]
-				arms['float' if all(floats) else 'int'].append((g, gx, cl))
+				fs_ = facts_through(ob, gx, cl)
+				par_ = parent_map(gx).get(id(cl))
+				if not any(floats) and ("op == '/'", True) in fs_ and sum(1 for t, p_ in fs_ if p_ and t.startswith('isinstance(') and t.endswith('int)')) >= 2 and not (isinstance(par_, ast.Call) and unparse(par_.func) == 'int'):
+					exact_arms.append((g, gx, cl))
+					continue
+				# operands handed to _calc unconverted under the float-or-division test: Python's own mixed arithmetic converts exactly as float() would,
+				# and divides two ints exactly — same arm, nothing to round twice
+				unconverted = not any(floats) and any(p_ and ' or ' in t and 'float)' in t for t, p_ in fs_)
+				arms['float' if all(floats) or unconverted else 'int'].append((g, gx, cl))
 			elif fnm == 'self._bitwise':
 				arms['bitwise'].append((g, gx, cl))
 			elif fnm == 'self._cat':
@@ -208,6 +217,43 @@ def run(rep: Report, tier: str) -> None:
 		disj = [t for t, p_ in fs if p_ and ' or ' in t and 'float)' in t]
 		single = has(fs, lambda t: t.startswith('isinstance(') and t.endswith('float)'), True) or has(fs, lambda t: t.endswith("== '/'"), True)
 		r2.check(any("== '/'" in t and t.count('float)') >= 2 for t in disj), 'float-arm-test', (EVAL, cl.lineno), f'the float() arm must take float operands OR true division (else int/int `/` would be truncated by int()): conditions {fs}')
+		# ... but NOT int / int: float(a) / float(b) rounds twice (each operand, then the quotient) where CPython's int / int is correctly rounded
+		# from the exact quotient: 14046286627791492475 / 8720394264201255075 is 1.610739859028388, through float() it is 1.6107398590283881
+		# the arm is unreachable for (int, int, '/') when one of the conditions known here evaluates, under that assignment, to the opposite of its
+		# recorded truth (`both_ints and op == '/'` recorded False after an early return; `not (isinstance(..int) and ...)`; ...)
+		def _ev(e: ast.AST, depth: int = 0):
+			if isinstance(e, ast.BoolOp):
+				vs = [_ev(v, depth) for v in e.values]
+				if isinstance(e.op, ast.And):
+					return False if False in vs else (True if all(v is True for v in vs) else None)
+				return True if True in vs else (False if all(v is False for v in vs) else None)
+			if isinstance(e, ast.UnaryOp) and isinstance(e.op, ast.Not):
+				v = _ev(e.operand, depth)
+				return None if v is None else (not v)
+			if isinstance(e, ast.Call) and unparse(e.func) == 'isinstance' and len(e.args) == 2 and unparse(e.args[0]) in ('left', 'right'):
+				ts = [unparse(x) for x in (e.args[1].elts if isinstance(e.args[1], ast.Tuple) else [e.args[1]])]
+				return 'int' in ts
+			if isinstance(e, ast.Compare) and len(e.ops) == 1 and unparse(e.left) == 'op':
+				rhs = e.comparators[0]
+				if isinstance(rhs, ast.Constant):
+					return {ast.Eq: rhs.value == '/', ast.NotEq: rhs.value != '/'}.get(type(e.ops[0]))
+				if isinstance(e.ops[0], (ast.In, ast.NotIn)):
+					member = '/' in arth if unparse(rhs).endswith('ArthmeticOps') else ('/' in bitw if unparse(rhs).endswith('BitwiseOps') else ('/' in [getattr(x, 'value', None) for x in rhs.elts] if isinstance(rhs, (ast.List, ast.Tuple, ast.Set)) else None))
+					return None if member is None else (member if isinstance(e.ops[0], ast.In) else not member)
+			if isinstance(e, ast.Name) and depth < 3:
+				d_ = deref(g.node, e)
+				return _ev(d_, depth + 1) if d_ is not e else None
+			return None
+		excluded = False
+		for t, p_ in fs:
+			try:
+				v_ = _ev(ast.parse(t, mode='eval').body)
+			except SyntaxError:
+				v_ = None
+			if v_ is not None and v_ != p_:
+				excluded = True
+		unconv = not any(isinstance(a, ast.Call) and unparse(a.func) == 'float' for a in (cl.args[0], cl.args[2]))
+		r2.check(unconv or (bool(exact_arms) and excluded), 'int-division-is-exact', (EVAL, cl.lineno), f'true division of two ints reaches `{unparse(cl)[:60]}`: both operands are converted with float() first, so the quotient is rounded twice and differs from the value CPython computes for int / int (correctly rounded) as soon as an operand exceeds 2**53 — 14046286627791492475 / 8720394264201255075 folds to 1.6107398590283881, CPython: 1.610739859028388; int / int must be handed to Python\'s own `/` unconverted (conditions here: {fs})')
 	for g, gx, cl in arms['int']:
 		fs = known(g, gx, cl)
 		pm_ = parent_map(gx)
@@ -414,6 +460,21 @@ def run(rep: Report, tier: str) -> None:
 				x = unparse(body.value)
 				same = x == owner or any(p_ and isinstance(a, ast.Compare) and len(a.ops) == 1 and isinstance(a.ops[0], ast.Eq) and {unparse(a.left), unparse(a.comparators[0])} == {f'{x}[0]', unparse(delim)} for a, p_ in atoms(cx, js))
 				r4.check(same, f'concat:requoted:{x}', (EVAL, js.lineno), f'_cat writes the body of `{x}` verbatim between the quotes of `{owner}`: when the two literals use different quote characters the body may contain the new delimiter unescaped (`"a" + \'say "hi"\'` folds to `"asay "hi""`, not a literal of the Python value)', unparse(js)[:120])
+	# a string operand is admitted (by _allow_string) as "one quote character, body, one quote character": a triple-quoted literal also starts and ends with a
+	# quote character, but its delimiter is three characters long — un-quoting it with [1:-1] leaves two quote characters on each side of the body
+	alw = c.method('_allow_string')
+	if alw is None or cat is None:
+		r4.skip('concat:single-character-delimiters', c.where, 'LiteralEvaluator._allow_string / _cat vanished')
+	else:
+		sp = alw.params()[1] if len(alw.params()) > 1 else 'string'
+		one_char = any(isinstance(n, ast.Subscript) and isinstance(n.slice, ast.Slice) and unparse(n.slice) == '1:-1' for n in ast.walk(cat.node))
+		triple_seen = [n for n in ast.walk(alw.node) if (isinstance(n, ast.Subscript) and isinstance(n.slice, ast.Slice) and unparse(n.slice) in (':3', '0:3', '-3:') and unparse(n.value) == sp)
+			or (isinstance(n, ast.Call) and isinstance(n.func, ast.Attribute) and n.func.attr in ('startswith', 'endswith') and any(isinstance(x, ast.Constant) and isinstance(x.value, str) and len(x.value) == 3 and len(set(x.value)) == 1 and x.value[0] in '"\'' for a in n.args for x in ast.walk(a)))
+			or (isinstance(n, ast.Subscript) and not isinstance(n.slice, ast.Slice) and unparse(n.value) == sp and unparse(n.slice) in ('1', '2', '-2', '-3'))]
+		if not one_char:
+			r4.skip('concat:single-character-delimiters', cat.where, '_cat no longer un-quotes its operands with [1:-1]')
+		else:
+			r4.check(bool(triple_seen), 'concat:single-character-delimiters', alw.where, f'_allow_string admits every text that starts and ends with a quote character and never looks at the second / third character: a triple-quoted literal passes, _cat removes ONE character per side, and `{chr(39) * 3}a{chr(39) * 3} + \'b\'` folds to `{chr(39) * 3}a{chr(39) * 2}b{chr(39)}` (py2cpp: "{chr(39) * 2}a{chr(39) * 2}b") while CPython evaluates \'ab\' — a different value, not a refusal')
 	r4.check(any(raised_name(n) == 'Errors.OperationNotAllowed' for b in closure_fi(fc) for n in nodes(b, ast.Raise)), 'cast:other-refused', fc.where, 'calls other than the scalar casts are no longer refused')
 	# the grammar admits the hexadecimal prefix in both cases (HEX_NUMBER matches `0X1F`): a case-sensitive prefix test sends `0X1F` to int(text, 10),
 	# whose ValueError surfaces as Errors.Fatal — neither the value CPython computes nor the refusal the property names
